@@ -717,6 +717,10 @@ func (env *Env) call(x *ast.CallExpr) TV {
 			default:
 				return TV{"(>= " + v.T + " " + env.top0 + ")", tBool}
 			}
+		case "disjoint":
+			// disjoint(a, b): two slices that share no backing array (or one of them has none)
+			a, b := env.expr(x.Args[0]), env.expr(x.Args[1])
+			return TV{or("(= (s-cap "+a.T+") 0)", "(= (s-cap "+b.T+") 0)", not(eq("(s-base "+a.T+")", "(s-base "+b.T+")"))), tBool}
 		case "allocated":
 			v := env.expr(x.Args[0])
 			return TV{and("(< 0 "+v.T+")", "(< "+v.T+" "+vc.get(env.heap, compTop)+")"), tBool}
